@@ -38,6 +38,29 @@ func VPH_allCommands() {
 	vp_ChanSlack(4)
 
 	repo := &Repository{gitDir: "/the/repo/.git", gitBin: "/usr/bin/git"}
+	if vp_Choice("opened-from-path", 2) == 1 {
+		// the repository as the CLI opens it: from a start directory, GIT_DIR being git's answer
+		vp_Stub("github.com/github/git-sizer/git.findGitBin", func() (string, error) { return "/usr/bin/git", nil })
+		vp_Stub("(*os/exec.Cmd).Output", func(c *exec.Cmd) ([]byte, error) {
+			for _, a := range c.Args {
+				if a == "--git-dir" {
+					return []byte("/the/repo/.git\n"), nil
+				}
+				if a == "--git-path" {
+					return []byte("/the/repo/.git/shallow\n"), nil
+				}
+			}
+			return []byte("a7a7a7a7a7a7a7a7a7a7a7a7a7a7a7a7a7a7a7a7\n"), nil
+		})
+		vp_Stub("os.Lstat", func(name string) (os.FileInfo, error) { return nil, os.ErrNotExist })
+		r, err := NewRepositoryFromPath("/work/tree/sub")
+		vp_Assert(err == nil && r != nil, "the repository opens")
+		if r == nil {
+			return
+		}
+		repo = r
+		cmds = nil // (the commands that locate the repository are VPH_repoFromPath's and VPH_isFull's subject)
+	}
 	ctx := context.Background()
 	entry := vp_Choice("entry", 9)
 	what := ""
